@@ -79,7 +79,7 @@ def ref_parse1(s):
 
 class C16(F.PropCheck):
     pid = 'C16'; gen_groups = ['MqttConsts']; prop_file = 'Properties_C16'
-    IN = {'START': 0, 'SEG': 1, 'TICK': 2, 'SUB': 3, 'PING': 4}
+    IN = {'START': 0, 'SEG': 1, 'TICK': 2, 'SUB': 3, 'PING': 4, 'PUB': 5}
     OUT = {0: 'BOOT', 1: 'MSG', 2: 'SENT', 3: 'QUEUED', 4: 'DROPPED', 5: 'ERR', 6: 'RECONNECT', 7: 'FAULT'}
     quick_cases = 3000; thorough_cases = 120000
     trusted_extra = ['C16 driver harness/drv/c16.c + wrapper harness/wrap/c16_mqtt_wrap.c (supla_esp_mqtt.c included unchanged) + board '
@@ -90,8 +90,8 @@ class C16(F.PropCheck):
                      'sizeof(struct mqtt_queued_message) is the host value (40; 32 on the target): the send queue fills later on the device']
     assumptions = ['one broker session up to its first protocol error; device-originated PUBLISH packets with QoS > 0 are outside the model',
                    'segmentation theorems: the send queue is never compacted while receiving (d_tight = false)']
-    rule = ('broker streams of 1-12 packets (CONNACK, PUBLISH QoS 0/1/2 with topic/payload lengths 0..buffer size, SUBACK/PINGRESP for '
-            'outstanding and unknown requests, PUBREL, unknown acknowledgements; single-field corruptions of type, flags, remaining length, '
+    rule = ('broker streams of 1-12 packets (CONNACK, PUBLISH QoS 0/1/2 with topic/payload lengths 0..buffer size, SUBACK/PINGRESP/PUBACK for '
+            'outstanding and unknown requests (device SUBSCRIBE/PINGREQ/QoS 1 PUBLISH), PUBREL, unknown acknowledgements; single-field corruptions of type, flags, remaining length, '
             'topic length; random bytes) x segmentations (whole, 1-byte, 10+rest, random cuts, coalesced up to 1460 bytes) x TICK interleaving; '
             'non-trivial = at least one MSG or ERR observed; distinct by sha256 of the event text')
 
@@ -159,6 +159,12 @@ class C16(F.PropCheck):
                 dev.append(('SUB', [pid, 10], b'')); p = suback(pid, [rng.choice([0, 0, 0, 1, 2, 0x80])]); tags.append('suback')
             elif k < 0.8:
                 dev.append(('PING', [], b'')); p = pingresp(); tags.append('pingresp')
+            elif k < 0.86:
+                # the device publishes with QoS 1 (real mqtt_publish); the broker acknowledges it (sometimes twice, sometimes a wrong id)
+                pid = next_dev_pid[0]; next_dev_pid[0] += rng.randrange(1, 5)
+                dev.append(('PUB', [1, pid, 10], b'')); dev.append(('TICK', [], b''))
+                z = rng.random(); p = pubxxx(4, pid) if z < 0.75 else pubxxx(4, pid) + pubxxx(4, pid) if z < 0.85 else pubxxx(4, pid + 1000)
+                tags.append('puback-of-device-publish' if z < 0.85 else 'bad:puback-wrong-id')
             elif k < 0.9 and qos2_open:
                 pid = qos2_open.pop(rng.randrange(len(qos2_open))); p = pubxxx(6, pid); tags.append('pubrel')
                 dev.append(('TICK', [], b''))    # a broker sends PUBREL only after it has seen the PUBREC: own segment
@@ -240,11 +246,13 @@ class C16(F.PropCheck):
         # --- expected, by the reference parser
         exp = []; exp_acks = []; end = None     # end: None | ('malformed', why, must_report) | ('legit', why)
         q2_this_seg = set()
+        pubs = set(); pubacked = set()
         pend = b''; subs = set(); subacked = set(); pings = 0; connacked = False; q2_open = set(); q2_seen = set()
         optional_from = None
         for (k, ints, data) in case.evs:
             if end: break
             if k == 'SUB': subs.add(ints[0])
+            elif k == 'PUB': pubs.add(ints[1])
             elif k == 'PING': pings += 1
             elif k == 'SEG':
                 pend += bytes(data); q2_this_seg = set()
@@ -283,6 +291,9 @@ class C16(F.PropCheck):
                         elif info['pid'] in q2_open: q2_open.discard(info['pid']); exp_acks.append((7, info['pid']))
                         elif info['pid'] in q2_seen: end = ('legit', 'second PUBREL')
                         else: end = ('malformed', 'PUBREL for a PUBLISH never received (id %d)' % info['pid'], True)
+                    elif ct == 4 and info['pid'] in pubs:
+                        if info['pid'] in pubacked: end = ('legit', 'second PUBACK')
+                        pubacked.add(info['pid'])
                     else: end = ('malformed', 'acknowledgement type %d of something never sent (id %d)' % (ct, info['pid']), True)
         sendfull = (err == c['E_SEND_BUFFER_IS_FULL'])
         legit = bool(end)
